@@ -4,8 +4,9 @@ import PlatypusModel.Props.C08
 # C08 / C14 — the premise "every step counts at least one evaluation", discharged for the generational algorithms
 
 `Props/C08.lean` proves the budget clauses for every step function with `Progress`.  This file proves `Progress` for the
-step functions of the library's generational algorithms (`Model/GenStep.lean`: NSGA-II, eps-NSGA-II without restarts, SPEA2,
-NSGA-III, IBEA, GeneticAlgorithm, EvolutionaryStrategy, EpsMOEA) for every stream of offspring counts in which each call of
+step functions of all fifteen shipped algorithm classes (`Model/GenStep.lean`: NSGA-II, eps-NSGA-II without restarts, SPEA2,
+NSGA-III, IBEA, GeneticAlgorithm, EvolutionaryStrategy, EpsMOEA, GDE3, MOEA/D without utility-based search, PESA2, PAES,
+OMOPSO, SMPSO, CMA-ES) for every stream of offspring counts in which each call of
 `variator.evolve` returns at least one offspring, and the population-size clause of C14 for every reachable state.
 What the offspring loop does — it stops at the first call at which the wanted number is reached, so a step evaluates fewer
 than `n + (largest number of offspring of one call)` — is `offLoopF_spec` / `offLoopF_overshoot`.
@@ -96,13 +97,23 @@ theorem genOffspring_ge (c : GenCfg) (sizes : Nat → Nat) (hs : ∀ i, 1 ≤ si
       | .whileMerge => c.popSize
       | .whileFittest => c.offSize
       | .callsMerge => c.offSize
-      | .oneCallKeep => 1) ≤ (genOffspring c sizes pos).1 := by
+      | .oneCallKeep => 1
+      | .popCallsMerge => c.popSize
+      | .popCallsKeep => c.popSize
+      | .whileReplace => c.popSize
+      | .oneCallOne => 1
+      | .fixed => c.popSize) ≤ (genOffspring c sizes pos).1 := by
   unfold genOffspring
   cases c.style with
   | whileMerge => exact offLoopF_reaches sizes hs c.popSize c.popSize 0 pos (by omega)
   | whileFittest => exact offLoopF_reaches sizes hs c.offSize c.offSize 0 pos (by omega)
   | callsMerge => simp only [callsF_spec]; have := sumFrom_ge sizes hs pos c.offSize; omega
   | oneCallKeep => simp only [callsF_spec]; have := sumFrom_ge sizes hs pos 1; omega
+  | popCallsMerge => simp only [callsF_spec]; have := sumFrom_ge sizes hs pos c.popSize; omega
+  | popCallsKeep => simp only [callsF_spec]; have := sumFrom_ge sizes hs pos c.popSize; omega
+  | whileReplace => exact offLoopF_reaches sizes hs c.popSize c.popSize 0 pos (by omega)
+  | oneCallOne => exact Nat.le_refl 1
+  | fixed => exact Nat.le_refl c.popSize
 
 /-- **the evaluation counter strictly increases with every step** of a generational algorithm: sizes at least 1, every call
 of the variator returns at least one offspring — for every stream of offspring counts and every state -/
@@ -128,23 +139,24 @@ theorem genStep_increment_while (c : GenCfg) (sizes : Nat → Nat) (hs : ∀ i, 
   omega
 
 /-- C14, never more than the configured size -/
-theorem genStep_pop_le (c : GenCfg) (sizes : Nat → Nat) (s : GenState) (h : s.pop ≤ c.popSize) :
+theorem genStep_pop_le (c : GenCfg) (sizes : Nat → Nat) (s : GenState) (hst : c.style ≠ .whileReplace) (h : s.pop ≤ c.popSize) :
     (genStep c sizes s).pop ≤ c.popSize := by
   unfold genStep
   by_cases h0 : s.nfe = 0
   · simp [h0]
   · simp only [h0, if_false, survivorsSize]
-    cases c.style <;> simp only <;> omega
+    cases hs : c.style <;> simp only [hs] at hst ⊢ <;> first | omega | contradiction
 
-/-- C14, exactly the configured size after every step, for every style except the GA -/
+/-- C14, exactly the configured size after every step, for every style except the GA (and PESA2, whose offspring become the
+population and which the statement does not list) -/
 theorem genStep_pop_eq (c : GenCfg) (sizes : Nat → Nat) (s : GenState) (hst : c.style ≠ .whileFittest)
-    (h : s.nfe = 0 ∨ s.pop = c.popSize) : (genStep c sizes s).pop = c.popSize := by
+    (hst2 : c.style ≠ .whileReplace) (h : s.nfe = 0 ∨ s.pop = c.popSize) : (genStep c sizes s).pop = c.popSize := by
   unfold genStep
   by_cases h0 : s.nfe = 0
   · simp [h0]
   · have hp : s.pop = c.popSize := by cases h with | inl h => exact absurd h h0 | inr h => exact h
     simp only [h0, if_false, survivorsSize]
-    cases hs : c.style <;> simp only [hs] at hst ⊢ <;> first | omega | contradiction
+    cases hs : c.style <;> simp only [hs] at hst hst2 ⊢ <;> first | omega | contradiction
 
 /-- C14, the GA: exactly the configured size unless it was given fewer offspring than parents -/
 theorem genStep_pop_ga (c : GenCfg) (sizes : Nat → Nat) (hs : ∀ i, 1 ≤ sizes i) (s : GenState) (hst : c.style = .whileFittest)
@@ -160,15 +172,15 @@ theorem genStep_pop_ga (c : GenCfg) (sizes : Nat → Nat) (hs : ∀ i, 1 ≤ siz
 /-- **every reachable state**: from the fresh algorithm (`nfe = 0`), after any positive number of steps the population has
 exactly the configured size (styles other than the GA) and the counter is positive -/
 theorem gen_reachable (c : GenCfg) (sizes : Nat → Nat) (hs : ∀ i, 1 ≤ sizes i) (hp : 1 ≤ c.popSize) (ho : 1 ≤ c.offSize)
-    (hst : c.style ≠ .whileFittest) (s : GenState) (h0 : s.nfe = 0) (j : Nat) :
+    (hst : c.style ≠ .whileFittest) (hst2 : c.style ≠ .whileReplace) (s : GenState) (h0 : s.nfe = 0) (j : Nat) :
     ((genStep c sizes)^[j + 1] s).pop = c.popSize ∧ 1 ≤ ((genStep c sizes)^[j + 1] s).nfe := by
   induction j with
   | zero =>
     show (genStep c sizes s).pop = c.popSize ∧ 1 ≤ (genStep c sizes s).nfe
-    exact ⟨genStep_pop_eq c sizes s hst (Or.inl h0), by have := genStep_progress c sizes hs hp ho s; omega⟩
+    exact ⟨genStep_pop_eq c sizes s hst hst2 (Or.inl h0), by have := genStep_progress c sizes hs hp ho s; omega⟩
   | succ j ih =>
     rw [Function.iterate_succ_apply']
-    refine ⟨genStep_pop_eq c sizes _ hst (Or.inr ih.1), ?_⟩
+    refine ⟨genStep_pop_eq c sizes _ hst hst2 (Or.inr ih.1), ?_⟩
     have := genStep_progress c sizes hs hp ho ((genStep c sizes)^[j + 1] s)
     omega
 
